@@ -2634,3 +2634,65 @@ M2("C06", "r8/stale-cached-property-on-sampler", [
     def _remove_pivot_segment(pivot: float, segments: List[Segment], dist: float) -> List[Segment]:"""),
     (SAM, "                rnd_annotator = np.random.choice(annotators)", "                rnd_annotator = np.random.choice(self._pool)")],
    "R-DECORATORS", "memo over a field that init_sampling reassigns: a re-used sampler draws from the first ground truth")
+
+# C20: polarity of the tests of the command line (from the mutation sweep)
+M("C20", "sweep/cat-dissim-choice-test-inverted", CLI,
+  '        if args.cat_dissim == "levenshtein":', '        if args.cat_dissim != "levenshtein":', "R-C20-2", "every choice but levenshtein builds the Levenshtein dissimilarity")
+M("C20", "sweep/gamma-cat-column-declared-when-not-requested", CLI,
+  """    if args.gamma_cat:
+        labels.append('gamma-cat')""", """    if not args.gamma_cat:
+        labels.append('gamma-cat')""", "R-C20-5", "json keys / csv header misaligned with the stored values")
+M("C20", "sweep/mode-test-or-instead-of-and", CLI,
+  "        if args.output_csv is None and args.output_json is None:", "        if args.output_csv is None or args.output_json is None:", "R-C20-5",
+  "with a report file requested nothing is stored for the writer")
+B("C20", "sweep/mode-test-swapped-branches", CLI,
+  "        if args.output_csv is None and args.output_json is None:", "        if not (args.output_csv is not None or args.output_json is not None):", "same test")
+
+# =============================================================================================
+# round 10
+# =============================================================================================
+M("C14", "r10/categories-accessor-updates-the-continuum-in-place", ALI,
+  """        if self.continuum is not None:
+            return self.continuum.categories
+        else:""", """        if self.continuum is not None:
+            categories = self.continuum.categories
+            categories |= SortedSet(u.annotation for ua in self for _, u in ua.n_tuple if u is not None and u.annotation is not None)
+            return categories
+        else:""", "R-C14-1", "`|=` on an alias of the continuum's category set is an in-place update")
+B("C14", "r10/categories-accessor-union-into-a-fresh-set", ALI,
+  """        if self.continuum is not None:
+            return self.continuum.categories
+        else:""", """        if self.continuum is not None:
+            return self.continuum.categories
+        elif False:
+            categories = SortedSet()
+            categories |= SortedSet(["x"])
+            return categories
+        else:""", "in-place update of a fresh set")
+M2("C13", "r10/annotator-mapping-with-missing-hook", [
+    (CONT, """class Continuum:
+    \"\"\"
+    Representation of a continuum,""", """class _AnnotatorUnits(SortedDict):
+    def __missing__(self, annotator):
+        units = self[annotator] = SortedSet()
+        return units
+
+
+class Continuum:
+    \"\"\"
+    Representation of a continuum,"""),
+    (CONT, "        self._annotations: SortedDict = SortedDict()", "        self._annotations: SortedDict = _AnnotatorUnits()")],
+   "R-C13-2", "a failed lookup registers the annotator")
+M("C17", "r10/constructor-parameter-inserted-before-forwarded-positionals", ALI,
+  """                 continuum: Optional['Continuum'] = None,
+                 check_validity: bool = False,
+                 disorder: Optional[float] = None
+                 ):
+        \"\"\"
+        Alignment constructor.""", """                 continuum: Optional['Continuum'] = None,
+                 chronological: bool = False,
+                 check_validity: bool = False,
+                 disorder: Optional[float] = None
+                 ):
+        \"\"\"
+        Alignment constructor.""", "R-C17-4", "SoftAlignment forwards positionally: check_validity lands in the new slot")
